@@ -26,7 +26,6 @@ normalisation ``"/" + path.lstrip("/")``):
        merged                                           -> redirect to the merged path (+ "/" for R)
 
 An admission is *definite* unless it sits in a region where the property statement is silent:
-  * a branch ``<path:p>/`` rule whose value would itself end in "/" (``/a//``);
   * an M admission of a path containing a run of three or more slashes (the quantifier speaks of
     doubled slashes only).
 Non-definite admissions justify an outcome but never forbid another one.
@@ -247,7 +246,9 @@ class RefRule:
             if fixed is not None and not lenient_fixed and not fixed(raw, val):
                 return None
             if cls == PATH and self.trail and raw.endswith("/"):
-                definite = False
+                # the trailing slashes of the request belong to the branch rule's own slash, not to the value
+                # ('/d/a//' is not q='a/': with merging it is redirected to '/d/a/', without it is not found)
+                return None
             args[name] = val
         if self.defaults:
             args.update(self.defaults)
